@@ -46,6 +46,10 @@ R2 = {
         {"id": "g-dbg", "language": "js", "rule": {"pattern": "debugger"},
          "fix": {"template": "", "expandEnd": {"regex": ";"}}},
         {"id": "h-span", "language": "html", "rule": {"pattern": "<span>$$$A</span>"}, "fix": "<b>$$$A</b>"},
+        # both expansions: the edits of neighbouring array elements overlap pairwise IN A CHAIN
+        # (e1-e2, e2-e3, e3-e4, ...): an edit that only overlaps a DROPPED edit must still be applied
+        {"id": "k-num", "language": "js", "rule": {"kind": "number", "inside": {"kind": "array"}},
+         "fix": {"template": "", "expandStart": {"regex": "^,$"}, "expandEnd": {"regex": "^,$"}}},
     ),
 }
 SHARED = dict(R2, **{"r1.yml": R1})
@@ -72,6 +76,10 @@ PROJECTS = {
     #     same-line, by id, by another rule's id = not suppressed, file-level is not used here)
     "suppressed": {
         "s.js": "// ast-grep-ignore\nfoo(1);\nfoo(2); // ast-grep-ignore: a-foo\nbar(3); // ast-grep-ignore: a-foo\n// ast-grep-ignore: b-bar, c-qux\nfoo(bar(4)); qux(5)\nfoo(6)\n",
+    },
+    # (8) chains of pairwise overlapping edits
+    "chain": {
+        "k.js": "const a = [1,2,3,4];\nconst b = [5,6,7,8,9,10];\nlet c = [11,12]\n",
     },
     # (7) one pattern that matches in the HOST document and in the injected document of the same file
     "html-both": {
